@@ -104,7 +104,7 @@ class Proc:
     def __init__(self, key, params, source=None, requires=None, ensures=None, raises=None, modifies=(),
                  loops=None, locals=None, calls=None, globals=None, result=OBJ, varargs=None,
                  defaults=None, trusted=False, note='', classname=None, finite=None, attr_alias=None,
-                 opaque_calls=None, pure=False, ghost_pre=None, dynattr=None, setattr_=None, on_entry=None, pure_fn=None):
+                 opaque_calls=None, pure=False, ghost_pre=None, dynattr=None, setattr_=None, on_entry=None, pure_fn=None, may_raise=()):
         self.key = key
         self.source = source          # 'ro.py:C3._merge' or None (assumed contract)
         self.params = list(params)    # [(name, Ty)]
@@ -129,6 +129,7 @@ class Proc:
         self.ghost_pre = ghost_pre
         self.dynattr = dynattr or {}
         self.setattr_ = setattr_ or {}
+        self.may_raise = tuple(may_raise)   # exception classes whose absence is NOT claimed (no obligation on those exits)
         self.pure_fn = pure_fn        # for side-effect-free total callees: Ctx -> z3 term of the result (no assumptions needed)
         self.on_entry = on_entry      # ghost statement executed when the body is entered: f(exec, state)
 
